@@ -42,6 +42,9 @@ def gen_graph(rng):
     k = rng.randint(2, 7)
     dashed = rng.random() < 0.3
     names = [("c-%d" if (dashed and rng.random() < 0.6) else "c%d") % i for i in range(k)]
+    if rng.random() < 0.3:
+        # names that contain each other
+        names = rng.sample(["build", "build-all", "all", "b", "nightly", "night", "c1", "c10", "c11", "x", "ax", "a"], k)
     internal = {nm for nm in names if rng.random() < 0.25}
     if len(internal) == k:
         internal.discard(names[0])
@@ -65,10 +68,12 @@ def gen_graph(rng):
             opts.append(("--p-%s-%d" % (nm, j), nm, rng.random() < 0.5))
         if rng.random() < 0.3:
             # an on/off pair writing to one destination
-            opts.append(("--on-%s" % nm, nm, "on:sw_" + nm.replace("-", "_")))
-            opts.append(("--off-%s" % nm, nm, "off:sw_" + nm.replace("-", "_")))
+            # (no option name is a prefix of another one: argparse accepts unambiguous abbreviations)
+            opts.append(("--on-%s-sw" % nm, nm, "on:sw_" + nm.replace("-", "_")))
+            opts.append(("--off-%s-sw" % nm, nm, "off:sw_" + nm.replace("-", "_")))
     opts.append(("--g-0", None, True))
-    return dict(names=names, internal=sorted(internal), parents=parents, cmds=cmds, real=real, dflt=dflt, opts=opts)
+    return dict(names=names, internal=sorted(internal), parents=parents, cmds=cmds, real=real, dflt=dflt, opts=opts,
+                flags={'_help_if_no_args': rng.random() < 0.3, '_no_log_file': rng.random() < 0.3})
 
 
 def ancestors(g):
@@ -109,7 +114,7 @@ def judge(ctx, g, case):
     try:
         with contextlib.redirect_stderr(io.StringIO()), contextlib.redirect_stdout(io.StringIO()):
             ap = ArgParser(commands=[tuple(c) if not isinstance(c, tuple) else c for c in g['cmds']],
-                           default_command=g['dflt'], prog="t")
+                           default_command=g['dflt'], prog="t", **g.get('flags', {}))
             for o, owner, flag in g['opts']:
                 kw = {'action': 'store_true'} if flag else {}
                 if isinstance(flag, str):
@@ -219,8 +224,9 @@ def judge(ctx, g, case):
     # positional arguments that are not command names: the default command
     if positional:
         for first in ("help", "h", "--", "-", "", "x", "e", g['names'][0] + "x"):
-            if first in g['real']:
-                continue
+            if first in g['names']:
+                continue      # (the name of an internal option set is recognised too - and refused as a command:
+                              #  the repository's own tests pin that down)
             for argv in ([first], [first, g['real'][-1]], [first, "--g-0"]):
                 ctx.count("positional_first_vectors")
                 try:
@@ -254,8 +260,10 @@ def judge(ctx, g, case):
         ctx.count("default_command_vectors")
         if ns.command != exp_default:
             problems.append(("wrong-command-recorded", {"argv": [], "command": ns.command, "expected": exp_default}))
-    except SystemExit:
-        problems.append(("empty-argument-list-rejected", {"default": exp_default}))
+    except SystemExit as err:
+        # (a parser built with _help_if_no_args prints its help for an empty command line and exits with 0)
+        if not (g.get('flags', {}).get('_help_if_no_args') and err.code == 0):
+            problems.append(("empty-argument-list-rejected", {"default": exp_default}))
     except Exception as err:
         problems.append(("parse-raises", {"argv": [], "type": type(err).__name__}))
     for mech, detail in problems[:5]:
